@@ -23,7 +23,7 @@ PROBE = "PrObE"
 
 # sites whose code path hashes the rendered name (set membership) are listed separately, for the evidence only
 SITES_FREE = [0, 1, 2, 3, 4, 7, 8, 9, 10, 11, 13, 14, 15, 16, 17, 20, 22, 23, 24, 25, 26, 27, 28, 29]
-SITES_HASHED = [5, 6, 12, 18, 19, 21, 30, 31]
+SITES_HASHED = [5, 6, 12, 18, 19, 21, 30, 31, 32, 33]
 
 
 def build(site, d, nm):
@@ -105,6 +105,11 @@ def build(site, d, nm):
     if site == 31:  # subquery alias (definition + qualifier; hashed through select())
         sub = Q.from_(u).select(Field("k")).as_(nm)
         return Q.from_(sub).select(sub.k)
+    if site == 32:  # set operation: select alias defined in the operands, referenced by the set operation's ORDER BY
+        f = Field("a").as_(nm)
+        return Q.from_(t).select(f).union(Q.from_(u).select(Field("a").as_(nm))).orderby(f)
+    if site == 33:  # set operation ordered by a column name given as a string
+        return Q.from_(t).select(Field(nm)).union(Q.from_(u).select(Field(nm))).orderby(nm)
     raise AssertionError(site)
 
 
@@ -121,7 +126,13 @@ def check(site, d, nm, name):
     if stmt_p is None:
         return SKIP
     parts = stmt_p.get_sql(dctx(d)).split(q + PROBE + q)
-    out = build(site, d, nm).get_sql(dctx(d))
+    stmt = build(site, d, nm)
+    out = stmt.get_sql(dctx(d))
+    if site in (32, 33) and not (str(stmt) == out):
+        # str() of a set operation starts from the default context: it must still follow the base query's dialect
+        note("sql", str(stmt))
+        note("expected", out)
+        return verdict(False, name, site=site, d=d, nm=nm)
     piece = q + nm.replace(q, q + q) + q
     exp = piece.join(parts)
     note("sql", out)
@@ -136,10 +147,26 @@ def check(site, d, nm, name):
     bounds={"quick": {"L": 2}, "thorough": {"L": 4}},
     timeout={"quick": 120, "thorough": 1800},
     witness=[dict(site=0, d=0, nm='a"b'), dict(site=16, d=1, nm="x`y z"), dict(site=13, d=2, nm="Sel ect"), dict(site=18, d=2, nm="a a"), dict(site=5, d=0, nm='a"')],
-    doc="name = any string (all code points) of length 1..L at each of 32 emission sites x 6 dialect classes",
+    doc="name = any string (all code points) of length 1..L at each of 34 emission sites x 6 dialect classes",
 )
 def c07_sites(site: int, d: int, nm: str) -> int:
     """
     bound: 1 <= len(nm) <= L
     """
     return check(site, d, nm, "c07_sites")
+
+
+@harness(
+    prop="C07",
+    cubes={"site": SITES_FREE + SITES_HASHED, "d": range(ND)},
+    bounds={"quick": {"L": 1}, "thorough": {"L": 2}},
+    timeout={"quick": 120, "thorough": 900},
+    witness=[dict(site=0, d=0, s="x"), dict(site=16, d=1, s="")],
+    doc="names that look already quoted: quote character + any string (len<=L) + quote character, at every site x dialect",
+)
+def c07_wrapped(site: int, d: int, s: str) -> int:
+    """
+    bound: len(s) <= L
+    """
+    q = qchar(d)
+    return check(site, d, q + s + q, "c07_wrapped")
